@@ -408,6 +408,21 @@ func work(ctx *runner.Ctx) {
 			cases = append(cases, cs{Mode: "stream", Src: src, G: hex, E: "255", OT: "cot", Seed: uint64(ctx.Seed) + 1})
 		}
 	}
+	// native (imported) circuits called with full-width, narrower and constant arguments
+	for _, fn := range []string{"AddUint64", "SubUint64", "MulUint64", "DivUint64"} {
+		for ai, args := range []string{"a, b", "a & b, 5", "5, b", "a ^ b, 0x10001", "a, b | 1"} {
+			if fn == "DivUint64" && ai != 4 && ai != 1 {
+				continue
+			}
+			src := fmt.Sprintf("package main\n\nimport (\n\t\"math\"\n)\n\nfunc main(a, b uint64) uint64 {\n\treturn math.%s(%s)\n}\n", fn, args)
+			for ii, in := range [][2]string{{"42405", "15615"}, {"4294967295", "305419896"}} {
+				if quick && ii == 1 {
+					continue
+				}
+				cases = append(cases, cs{Mode: "stream", Src: src, G: in[0], E: in[1], OT: "co", Seed: uint64(ctx.Seed) + uint64(ai)})
+			}
+		}
+	}
 	// sha2pc
 	curves := []string{"P-256"}
 	if !quick {
